@@ -219,5 +219,20 @@ Section Loop.
     end.
   Definition loop_contains_segment (L : Loop) (s : Seg K) : bool :=
     contains_segment_from (verts L) (vnth (verts L) O) s.
+
+  (** histories: operations applied to a loop object; a refused [push] keeps the previous state *)
+  Inductive lop := LPush (p : V) | LClose.
+  Definition loop_step (L : Loop) (op : lop) : Loop * res unit :=
+    match op with
+    | LPush p => match loop_push L p with Ok L' => (L', Ok tt) | Err c => (L, Err c) | Panic s => (L, Panic s) end
+    | LClose => loop_close L
+    end.
+  (** the whole history: final state and the list of outcomes *)
+  Fixpoint loop_run (L : Loop) (ops : list lop) : Loop * list (res unit) :=
+    match ops with
+    | [] => (L, [])
+    | op :: tl => let '(L', o) := loop_step L op in let '(L'', os) := loop_run L' tl in (L'', o :: os)
+    end.
 End Loop.
 Arguments Loop K : clear implicits.
+Arguments lop K : clear implicits.
